@@ -483,3 +483,17 @@ mod sm4test {
         assert_eq!(&ciphertext, block.as_slice());
     }
 }
+
+#[cfg(gm_rs_verif)]
+pub mod verif_hooks {
+    //! Read-only accessors for private tables (verification builds only).
+    pub fn sbox() -> [u8; 256] {
+        crate::SBOX
+    }
+    pub fn fk() -> [u32; 4] {
+        crate::FK
+    }
+    pub fn ck() -> [u32; 32] {
+        crate::CK
+    }
+}
